@@ -247,7 +247,9 @@ DeliverFrom(ms, d) ==
               [] OTHER -> NoDelivery
 
 Deliver(d) ==
-    CASE d.k = "garbage" -> Dlv(Lit(Fill(171, d.n)), Lit(Fill(205, d.j)), Lit(Fill(239, d.i)))
+    \* arbitrary bytes: n-byte body, j-byte tag, i-byte aad (named leaves: some bytes nobody ever sealed)
+    CASE d.k = "garbage" -> Dlv(Leaf("gbody" \o ToString(d.n), d.n), Leaf("gtag" \o ToString(d.j), d.j),
+                                Leaf("gaad" \o ToString(d.i), d.i))
       [] d.s = "shot"    -> DeliverFrom(shots, d)
       [] OTHER           -> DeliverFrom(Msgs(d.s), d)
 
